@@ -127,6 +127,7 @@ func main() {
 					continue
 				}
 				o.Name = pkgShort(k) + "." + o.Name
+				o.fc = fc
 				all = append(all, o)
 				fr.Obligations++
 			}
@@ -309,6 +310,7 @@ func (r *Report) finish(out string, start time.Time, verbose bool) {
 		samples = append(samples, map[string]interface{}{"obligation": o.Name, "kind": o.Kind, "at": o.Pos, "verdict": o.Verdict, "solver": o.Solver, "solver_s": round3(o.Secs)})
 	}
 	violations := 0
+	replays := 0
 	repDir := filepath.Join(r.Verif, "replays", r.Prop)
 	for _, f := range r.failures {
 		violations++
@@ -321,8 +323,34 @@ func (r *Report) finish(out string, start time.Time, verbose bool) {
 		if o.Goal != nil && len(o.Goal.String()) < 4000 {
 			body += "goal: " + o.Goal.String() + "\n"
 		}
+		// the SMT query of the failed obligation is kept with the replay (the scratch directory is removed at exit)
+		smt := ""
+		if o.Goal != nil && o.fc != nil {
+			smt = r.p.buildQuery(o, 2)
+		}
+		suffix := " no-failing-input-found"
+		if replays < 12 {
+			rr := r.p.replayObligation(o, r.p.repo, r.Verif)
+			if rr.Attempted {
+				replays++
+			}
+			switch {
+			case rr.Confirmed:
+				suffix = ""
+				body += "counterexample: REPLAYED ON THE REAL CODE -- " + rr.Observed + "\n"
+			case rr.Why != "":
+				body += "counterexample: none confirmed -- " + rr.Why + "\n"
+			}
+			if rr.Test != "" {
+				body += "replay-package: " + rr.PkgDir + "\nreplay-test: TestGovcReplay (source below; run again with ./check --replay <this file>)\n"
+				body += "---- go test output ----\n" + rr.Output + "\n---- generated test ----\n" + rr.Test + "\n---- end of generated test ----\n"
+			}
+		}
 		path := writeReplay(repDir, o.Name, body)
-		fmt.Printf("VIOLATION property=%s replay=%s obligation=%s verdict=%s no-failing-input-found\n", r.Prop, path, o.Name, o.Verdict)
+		if smt != "" {
+			os.WriteFile(strings.TrimSuffix(path, ".txt")+".smt2", []byte("; "+o.Name+"\n"+smt), 0o644)
+		}
+		fmt.Printf("VIOLATION property=%s replay=%s obligation=%s verdict=%s%s\n", r.Prop, path, o.Name, o.Verdict, suffix)
 	}
 	for _, k := range knownHit {
 		fmt.Printf("KNOWN-FINDING: property=%s %s [%s]\n", k.Property, k.What, k.Obligation)
